@@ -5,6 +5,7 @@ Imports Spec, Gen and Model only (no Mathlib), so it links as a `lean_exe`.
 -/
 import B3.Spec
 import B3.Gen.RsPortable
+import B3.Gen.Arith
 import B3.Model.Rs
 open B3
 
@@ -39,6 +40,9 @@ def parseData : List String → Option (List UInt8 × List String)
   | "pat" :: n :: seed :: rest => do
     let n ← n.toNat?; let seed ← seed.toNat?
     some (patBytes n (UInt64.ofNat seed), rest)
+  | "pats" :: n :: seed :: skip :: rest => do
+    let n ← n.toNat?; let seed ← seed.toNat?; let skip ← skip.toNat?
+    some ((patBytes (skip + n) (UInt64.ofNat seed)).drop skip, rest)
   | "hex" :: h :: rest => do some (← bytesOfHex h, rest)
   | _ => none
 
@@ -59,10 +63,18 @@ structure XReg where
   r : Rs.OutputReader
   specNode : Spec.Node       -- ghost: the spec's root node for this stream
 
+/-- a chaining-value register with its ghost meaning: the CV of the subtree over `bytes` starting
+at chunk counter `t0` -/
+structure VReg where
+  cv : CV
+  t0 : Nat
+  bytes : List UInt8
+
 structure DState where
   sd : Nat := 1
   hs : List (String × HReg) := []
   xs : List (String × XReg) := []
+  vs : List (String × VReg) := []
 
 def DState.getH (s : DState) (r : String) : Option HReg := (s.hs.find? (·.1 = r)).map (·.2)
 def DState.setH (s : DState) (r : String) (v : HReg) : DState :=
@@ -71,6 +83,14 @@ def DState.getX (s : DState) (r : String) : Option XReg := (s.xs.find? (·.1 = r
 def DState.setX (s : DState) (r : String) (v : XReg) : DState :=
   { s with xs := (r, v) :: s.xs.filter (·.1 ≠ r) }
 
+
+def DState.getV (s : DState) (r : String) : Option VReg := (s.vs.find? (·.1 = r)).map (·.2)
+def DState.setV (s : DState) (r : String) (v : VReg) : DState :=
+  { s with vs := (r, v) :: s.vs.filter (·.1 ≠ r) }
+
+def showR : R Nat → String
+  | .ok n => toString n
+  | .panic => "PANIC"
 
 def modeKey (m : Spec.Mode) : CV := m.key
 def modeFlags (m : Spec.Mode) : UInt8 := m.flags
@@ -117,6 +137,11 @@ def step (s : DState) (line : String) : DState × String :=
       | some h' => (s.setH r { reg with h := h', absorbed := reg.absorbed ++ data }, "ok;-")
       | none => (s, "PANIC;-")
     | _, _ => bad
+  | "H" :: "updw" :: r :: rest => match s.getH r, parseData rest with
+    | some reg, some (data, []) => match reg.h.update genK s.sd data with
+      | some h' => (s.setH r { reg with h := h', absorbed := reg.absorbed ++ data }, "ok " ++ toString data.length ++ ";-")
+      | none => (s, "PANIC;-")
+    | _, _ => bad
   | ["H", "fin", r] => match s.getH r with
     | some reg =>
       let m := match reg.h.finalize genK with
@@ -157,6 +182,19 @@ def step (s : DState) (line : String) : DState × String :=
         hexOfBytes (bytesOfWords (Spec.subtreeCV reg.h.key reg.h.cs.flags reg.h.t0 reg.absorbed))
       (s, m ++ ";" ++ sp)
     | none => bad
+  | ["H", "cvnr", r, v] => match s.getH r with
+    | some reg => match reg.h.finalizeNonRoot genK with
+      | some cv =>
+        let sp := hexOfBytes (bytesOfWords (Spec.subtreeCV reg.h.key reg.h.cs.flags reg.h.t0 reg.absorbed))
+        (s.setV v { cv := cv, t0 := reg.h.t0, bytes := reg.absorbed }, hexOfBytes (bytesOfWords cv) ++ ";" ++ sp)
+      | none => (s, "PANIC;-")
+    | none => bad
+  | ["X", "read", x, n] => match s.getX x, n.toNat? with
+    | some reg, some n =>
+      let pos := reg.r.position
+      let (out, r') := reg.r.fill genK n
+      (s.setX x { reg with r := r' }, hexOfBytes out ++ ";" ++ hexOfBytes (reg.specNode.stream pos n))
+    | _, _ => bad
   | ["X", "fill", x, n] => match s.getX x, n.toNat? with
     | some reg, some n =>
       let pos := reg.r.position
@@ -212,18 +250,49 @@ def step (s : DState) (line : String) : DState × String :=
         (s.setX x { r := Rs.OutputReader.new o, specNode := sp }, "ok;-")
       | _, _ => bad
     | _ => bad
+  | "Z" :: "mergev" :: kind :: rest => match parseMode rest with
+    | some (mode, vl :: vr :: more) => match s.getV vl, s.getV vr with
+      | some l, some r =>
+        let o := Rs.parentOutput (rsModeKey s.sd mode) (rsModeFlags mode) l.cv r.cv
+        -- ghost: the two subtrees are adjacent and the left one is complete => their parent covers both
+        let both := l.bytes ++ r.bytes
+        match kind, more with
+        | "nonroot", [vo] =>
+          let cv := Rs.chain genK o
+          (s.setV vo { cv := cv, t0 := l.t0, bytes := both },
+            hexOfBytes (bytesOfWords cv) ++ ";" ++ hexOfBytes (bytesOfWords (Spec.subtreeCV mode.key mode.flags l.t0 both)))
+        | "root", [] => (s, hexOfBytes (Rs.rootHash genK o) ++ ";" ++ hexOfBytes (Spec.hash mode both))
+        | "rootxof", [x] => (s.setX x { r := Rs.OutputReader.new o, specNode := Spec.root mode both }, "ok;-")
+        | _, _ => bad
+      | _, _ => bad
+    | _ => bad
+  | ["Z", "lsl", n] => match n.toNat? with
+    | some n =>
+      -- spec: the largest power of two strictly below n, for n in (1024, 2^64)
+      let sp := if 1024 < n ∧ n < 2 ^ 64 then toString (2 ^ Nat.log2 (n - 1)) else "-"
+      (s, showR (Gen.Rs.left_subtree_len n) ++ ";" ++ sp)
+    | none => bad
+  | ["Z", "msl", o] => match o.toNat? with
+    | some o =>
+      let m := match Gen.Rs.max_subtree_len o with
+        | .ok none => "none"
+        | .ok (some v) => toString v
+        | .panic => "PANIC"
+      let sp := if o = 0 then "none" else if o % 1024 = 0 ∧ o < 2 ^ 64 then toString (1024 * 2 ^ Arith.tz (o / 1024)) else "-"
+      (s, m ++ ";" ++ sp)
+    | none => bad
   | ["Z", "ctxkey", c] => match bytesOfHex c with
     | some ctx =>
       (s, hexOfBytes (Rs.rootHash genK (Rs.hashAllAtOnce genK Gen.Rs.IV Gen.Rs.DERIVE_KEY_CONTEXT s.sd ctx))
           ++ ";" ++ hexOfBytes (Spec.contextKey ctx))
     | none => bad
-  | ["K", "cip", cv, block, bl, t, fl] => match bytesOfHex cv, bytesOfHex block, bl.toNat?, t.toNat?, fl.toNat? with
+  | ["K", "cip", _plat, cv, block, bl, t, fl] => match bytesOfHex cv, bytesOfHex block, bl.toNat?, t.toNat?, fl.toNat? with
     | some cvb, some bb, some bl, some t, some fl =>
       let m := genK.cip (cvOfBytes cvb) (wordsOfBytes 16 bb) (UInt8.ofNat bl) (UInt64.ofNat t) (UInt8.ofNat fl)
       let sp := first8 (Spec.compress (cvOfBytes cvb) (wordsOfBytes 16 bb) (UInt64.ofNat t) (UInt32.ofNat bl) (UInt32.ofNat fl))
       (s, hexOfBytes (bytesOfWords m) ++ ";" ++ hexOfBytes (bytesOfWords sp))
     | _, _, _, _, _ => bad
-  | ["K", "cxof", cv, block, bl, t, fl] => match bytesOfHex cv, bytesOfHex block, bl.toNat?, t.toNat?, fl.toNat? with
+  | ["K", "cxof", _plat, cv, block, bl, t, fl] => match bytesOfHex cv, bytesOfHex block, bl.toNat?, t.toNat?, fl.toNat? with
     | some cvb, some bb, some bl, some t, some fl =>
       let m := genK.cxof (cvOfBytes cvb) (wordsOfBytes 16 bb) (UInt8.ofNat bl) (UInt64.ofNat t) (UInt8.ofNat fl)
       let sp := Spec.compress (cvOfBytes cvb) (wordsOfBytes 16 bb) (UInt64.ofNat t) (UInt32.ofNat bl) (UInt32.ofNat fl)
